@@ -115,6 +115,9 @@ Proof.
   match type of Hr with readv _ _ ?n = _ => assert (Hb2 : snd (g_cursor g) + n < U64) by (unfold B62 in *; lia) end.
   destruct (readv_ok_facts pubdata_size _ all _ _ _ _ W Hiss Hb1 Hb2 Hr)
     as (_ & _ & _ & Hoffs & _ & _ & _ & Hsnd & _ & _).
+  set (offs := map (fun e : pubdata * cursor => snd (snd e)) from_log) in *.
+  assert (Hoffs' : offs = Nseq (pos_of (d_log d) (g_cursor g)) (length from_log)) by exact Hoffs.
+  clear Hoffs. rename Hoffs' into Hoffs.
   rewrite Eev.
   destruct (srcs sel from_log) as [| s1 sr] eqn:Esr.
   - destruct Hm as (_ & orc & ->). apply Cov_app. exact HC.
@@ -127,7 +130,7 @@ Proof.
       rewrite (al_get_set_same str_eqb str_eqb_spec) in Hgx. inversion Hgx; subst gx. cbn [set_g_cursor g_cursor] in Hoff.
       apply in_or_app. destruct (N.lt_ge_cases off (snd (g_cursor g))) as [Hlt | Hge].
       * left. eapply HC; eauto. lia.
-      * right. cbv beta in Hoffs. rewrite Hoffs. apply Nseq_In_conv.
+      * right. rewrite Hoffs. apply Nseq_In_conv.
         assert (N.of_nat (length from_log) = lenN from_log) by reflexivity. lia.
     + rewrite (RetainedBase.al_get_set_other str_eqb str_eqb_spec) in Hgx by exact Hne.
       rewrite app_nil_r. eapply HC; eauto.
@@ -169,7 +172,7 @@ Proof.
         { eapply (noevict_le (r_datalog st2) (r_datalog st2)); [| apply dl_le_refl |].
           - exact (proj1 HI2).
           - intros d' c Hd'. unfold glog in Hd'. destruct S2 as (_ & Hfi & _ & Hsd).
-            destruct (split_once_slash name0) as [[nm p] |] eqn:Esp; [| discriminate]. rewrite <- Hfi in Hd'.
+            destruct (split_once_slash name0) as [[nm p] |] eqn:Esp; [| discriminate]. rewrite Hfi in Hd'.
             destruct (al_get str_eqb p (dl_findex (r_datalog st1))) as [i |] eqn:Efi; [| discriminate].
             specialize (Hsd i). rewrite Hd' in Hsd. unfold same_data in Hsd.
             destruct (slab_get (dl_native (r_datalog st1)) i) as [d0 |] eqn:E0; [| tauto].
@@ -288,11 +291,14 @@ Proof.
   destruct (nthN (r_links st) (i_link inc)) as [b0 |]; [| discriminate]. inversion Hb; subst b0.
   apply bind_ok in H as ([st1 fl] & H1 & H). rewrite H1 in Hd. cbv beta iota in Hd.
   pose proof (handle_packets_steady_groups _ _ _ _ _ _ _ Hs H1) as G1.
-  apply bind_ok in H as (st2 & H2 & H). rewrite H2 in Hd.
+  apply bind_ok in H as (st2 & H2 & H). apply bind_ok in H as (st3 & H3 & H).
   assert (G2 : r_groups st2 = r_groups st1) by (destruct (f_force_ack fl); [eapply reschedule_groups; eauto | now inv_ok]).
-  apply bind_ok in H as (st3 & H3 & H). rewrite H3 in Hd.
   assert (G3 : r_groups st3 = r_groups st2) by (destruct (f_new_data fl); [eapply drain_notifications_groups; eauto | now inv_ok]).
-  destruct (f_disconnect fl); [discriminate |]. inv_ok. rewrite G3, G2. exact G1.
+  assert (Hfd : f_disconnect fl = false).
+  { destruct (f_disconnect fl) eqn:Ed; [| reflexivity]. exfalso.
+    destruct (f_force_ack fl); destruct (f_new_data fl); try rewrite H2 in Hd; try rewrite H3 in Hd; inv_ok;
+      try rewrite H2 in Hd; try rewrite H3 in Hd; discriminate. }
+  rewrite Hfd in H. inv_ok. rewrite G3, G2. exact G1.
 Qed.
 
 Theorem step_cov st o st' out gh name0 s0 gf :
